@@ -3275,14 +3275,20 @@ check_freshness(coap_session_t *session, coap_pdu_t *rcvd, coap_pdu_t *sent,
       /* Need to track Observe token change if Observe */
       track_fetch_observe(echo_pdu, lg_crcv, 0, &echo_pdu->actual_token);
 #if COAP_OSCORE_SUPPORT
-      if (session->oscore_encryption &&
-          (opt = coap_check_option(echo_pdu, COAP_OPTION_OBSERVE, &opt_iter)) &&
-          coap_decode_var_bytes(coap_opt_value(opt), coap_opt_length(opt) == 0)) {
-        /* Need to update the base PDU's Token for closing down Observe */
-        if (lg_xmit) {
-          lg_xmit->b.b1.state_token = token;
-        } else {
-          lg_crcv->state_token = token;
+      if (session->oscore_encryption) {
+        /* opt still names the received Echo option: it is needed at not_sent */
+        coap_opt_t *obs_opt = coap_check_option(echo_pdu, COAP_OPTION_OBSERVE,
+                                                &opt_iter);
+
+        if (obs_opt &&
+            coap_decode_var_bytes(coap_opt_value(obs_opt),
+                                  coap_opt_length(obs_opt) == 0)) {
+          /* Need to update the base PDU's Token for closing down Observe */
+          if (lg_xmit) {
+            lg_xmit->b.b1.state_token = token;
+          } else {
+            lg_crcv->state_token = token;
+          }
         }
       }
 #endif /* COAP_OSCORE_SUPPORT */
